@@ -1,13 +1,16 @@
 package props
 
 import (
+	"bufio"
 	"bytes"
 	"compress/gzip"
 	"encoding/base64"
 	"encoding/binary"
 	"encoding/json"
+	"errors"
 	"fmt"
 	"net"
+	"net/http"
 	"runtime"
 	"runtime/metrics"
 	"strconv"
@@ -25,7 +28,6 @@ import (
 	"tunnox-core/verifsim/simnode"
 	"tunnox-core/verifsim/simrt"
 	"tunnox-core/verifsim/simstore"
-	"tunnox-core/verifsim/simws"
 )
 
 // C05 — hostile bytes cannot crash the server or make it allocate without bound.
@@ -82,7 +84,7 @@ func init() {
 			"a hostile byte stream of 1-10 segments (hand-framed packets over all dispatcher types and random type/flag bytes with valid-shaped, wrong-typed, deeply nested, huge-number, null, truncated, non-UTF-8 or random JSON; " +
 			"command packets over all command types; gzip-flagged bodies: valid, garbage, concatenated members, truncated trailer, bad CRC, 1-4 MiB of zeros and (1 run in 50) a bomb inflating to 24-80 MiB (256 MiB in thorough); " +
 			"adversarial length fields 0/1/2^31/2^32-1/max-1/max/max+1/12*max with a short body; raw random bytes; floods of up to 800 empty five-byte packets; bit-flipped frames; 1 run in 8 carries bodies of 1-16 MiB), a truncation offset, " +
-			"the transport segmentation law of the server's reads, how the stream ends (half-close, close, reset, 10 minute stall then close), the transport of the served connection (plain stream with up to 3 injected transient read timeouts, or in 1/3 of the serve runs the real WebSocket wrapper over a real gorilla connection: stream sent as split/merged binary messages mixed with text messages, pings, unsolicited pongs, mid-stream close frames and illegal frames; the peer does or does not answer the server's pings; ends with or without a close frame or goes silent past every transport timeout), pauses between segments, optionally a legitimate second client, a first-connect by the hostile peer, and storage errors (k-th operation or 1/8 of operations fail). " +
+			"the transport segmentation law of the server's reads, how the stream ends (half-close, close, reset, 10 minute stall then close), the transport of the served connection (plain stream with up to 3 injected transient read timeouts, or in 1/3 of the serve runs the real WebSocket wrapper over a real gorilla connection: stream sent as split/merged binary messages mixed with text messages, pings, unsolicited pongs, mid-stream close frames and illegal frames; the peer does or does not answer the server's pings; ends with or without a close frame or goes silent past every transport timeout; in 1/12 of the WebSocket runs the peer finally sends ONE binary message of 16 (legal), 64 or 160 MiB (400 MiB in thorough) in 1-8 frames whose payload is synthesised inside the server's own link Read so that the peer side allocates nothing), pauses between segments, optionally a legitimate second client, a first-connect by the hostile peer, and storage errors (k-th operation or 1/8 of operations fail). " +
 			"Non-trivial: the real decoder/dispatcher actually consumed at least one segment that is not a well-formed request (the server read past its first byte, or HandlePacket was called with it), or the server consumed an illegal/unexpected WebSocket frame, or a deaf WebSocket peer stayed silent past the transport timeouts; distinct = distinct schedule hashes of such runs.",
 		Real: []string{"internal/stream StreamProcessor.ReadPacket (+buffer pool)", "internal/stream/compression GzipReader", "internal/protocol/adapter BaseAdapter.handleConnection/connectionReadLoop", "internal/protocol/adapter wsServerConn (read deadline, pong handler, ping loop) over github.com/gorilla/websocket",
 			"internal/protocol/session SessionManager.HandlePacket, handshake/tunnel/command/DNS/SOCKS5/traffic handlers", "internal/command CommandExecutor + registry", "internal/app/server auth, tunnel, connection-code, config, mapping, HTTP-domain command handlers", "internal/cloud services on the memory storage backend"},
@@ -1147,6 +1149,8 @@ func c05Node(w *simrt.World, g *c05gen, direct bool) {
 	// transport of the hostile connection: plain stream, or the real WebSocket
 	// wrapper over a real gorilla connection (its own deadlines, pings, errors)
 	ws := !direct && c.Intn(3, "transport") == 2
+	// rare probe: one WebSocket message far larger than any packet may be
+	giant := ws && c.Intn(12, "ws.giant") == 11
 	// transient read timeouts injected into the stream transport
 	var timeouts map[int]int
 	if !direct && !ws {
@@ -1179,7 +1183,14 @@ func c05Node(w *simrt.World, g *c05gen, direct bool) {
 	}
 	w.Yield("c05.plan")
 	p := c05Plan(w, g, direct)
-	heavy := p.anyBig || p.anyBomb
+	if ws && p.anyBig {
+		// Bodies of 1-16 MiB go over the plain stream only: as a WebSocket message
+		// they make the harness peer itself (frame masking, thousands of appends
+		// to the link buffer) allocate several times the body inside the very
+		// interval the oracle attributes to the server.
+		ws, giant = false, false
+	}
+	heavy := p.anyBig || p.anyBomb || giant
 	w.State(fmt.Sprintf("%s/%s/end%d/legit%v/pre%v/sf%d", layer, simnet.LawNames[p.law], p.end, withLegit, preAuth, storeFault))
 	var base uint64
 	if heavy {
@@ -1200,15 +1211,8 @@ func c05Node(w *simrt.World, g *c05gen, direct bool) {
 	if budget > 2500000 {
 		budget = 2500000
 	}
-	if ws && p.anyBig {
-		// Bodies of 1-16 MiB go over the plain stream only: as a WebSocket message
-		// they make the harness peer itself (frame masking, thousands of appends
-		// to the link buffer) allocate several times the body inside the very
-		// interval the oracle attributes to the server.
-		ws = false
-	}
 	if ws {
-		seen, ok := c05ServeWS(w, node, p, budget, armStoreFault)
+		seen, ok := c05ServeWS(w, node, p, budget, armStoreFault, giant, g.tier)
 		if !ok {
 			return
 		}
@@ -1426,6 +1430,110 @@ var c05WSGarbage = [][]byte{
 	{'G', 'E', 'T', ' ', '/', ' ', 'H', 'T', 'T', 'P', '/', '1', '.', '1', '\r', '\n', '\r', '\n'}, // a second HTTP request
 }
 
+// c05part is a piece of synthetic inbound traffic: literal bytes or n times one byte.
+type c05part struct {
+	lit  []byte
+	fill byte
+	n    int64
+}
+
+// c05feed is the server's end of the link under a WebSocket connection. Once
+// armed, and once the server has consumed the link up to offset at, its Reads
+// are served from parts: bytes that a peer could have sent, produced in place
+// without any buffer on the peer's or the link's side.
+type c05feed struct {
+	*simnet.Conn
+	w     *simrt.World
+	at    int64
+	parts []c05part
+	fed   int64
+}
+
+func (f *c05feed) arm(at int64, parts []c05part) { f.at, f.parts = at, parts }
+
+func (f *c05feed) drained() bool { return f.at > 0 && len(f.parts) == 0 }
+
+func (f *c05feed) Read(p []byte) (int, error) {
+	if f.at == 0 || len(f.parts) == 0 || len(p) == 0 || f.Conn.BytesRead() < f.at {
+		return f.Conn.Read(p)
+	}
+	f.w.Yield("net.read:feed")
+	if f.Conn.Closed() {
+		return 0, net.ErrClosed
+	}
+	pt := &f.parts[0]
+	n := 0
+	if pt.lit != nil {
+		n = copy(p, pt.lit)
+		pt.lit = pt.lit[n:]
+		if len(pt.lit) == 0 {
+			f.parts = f.parts[1:]
+		}
+	} else {
+		n = len(p)
+		if int64(n) > pt.n {
+			n = int(pt.n)
+		}
+		p[0] = pt.fill
+		for i := 1; i < n; i *= 2 {
+			copy(p[i:n], p[:i])
+		}
+		pt.n -= int64(n)
+		if pt.n == 0 {
+			f.parts = f.parts[1:]
+		}
+	}
+	f.fed += int64(n)
+	return n, nil
+}
+
+type c05hijack struct {
+	conn net.Conn
+	brw  *bufio.ReadWriter
+	h    http.Header
+}
+
+func (h *c05hijack) Header() http.Header         { return h.h }
+func (h *c05hijack) Write(p []byte) (int, error) { return h.brw.Write(p) }
+func (h *c05hijack) WriteHeader(int)             {}
+func (h *c05hijack) Hijack() (net.Conn, *bufio.ReadWriter, error) {
+	return h.conn, h.brw, nil
+}
+
+// c05WSPair is simws.Pair with the server end of the link wrapped in c05feed:
+// a real gorilla client dials through the link, the real Upgrader answers.
+func c05WSPair(w *simrt.World, cfg simnet.LinkConfig, bufSize int) (cli, srv *websocket.Conn, a *simnet.Conn, fb *c05feed, err error) {
+	a, b := simnet.NewLink(w, cfg)
+	fb = &c05feed{Conn: b, w: w}
+	var srvErr error
+	st := w.Spawn("ws-upgrade-"+cfg.NameB, func() {
+		br := bufio.NewReader(fb)
+		req, e := http.ReadRequest(br)
+		if e != nil {
+			srvErr = e
+			return
+		}
+		rw := &c05hijack{conn: fb, brw: bufio.NewReadWriter(br, bufio.NewWriter(fb)), h: http.Header{}}
+		up := websocket.Upgrader{ReadBufferSize: bufSize, WriteBufferSize: bufSize, CheckOrigin: func(*http.Request) bool { return true }}
+		srv, srvErr = up.Upgrade(rw, req, nil)
+	})
+	d := websocket.Dialer{
+		NetDial:          func(network, addr string) (net.Conn, error) { return a, nil },
+		HandshakeTimeout: 20 * time.Second,
+		ReadBufferSize:   bufSize,
+		WriteBufferSize:  bufSize,
+	}
+	cli, _, err = d.Dial("ws://sim.invalid/_tunnox", nil)
+	st.Wait()
+	if err == nil {
+		err = srvErr
+	}
+	if err == nil && (cli == nil || srv == nil) {
+		err = errors.New("c05: websocket handshake produced no connection")
+	}
+	return
+}
+
 type c05wsop struct {
 	kind, split, garbage, code int
 }
@@ -1437,7 +1545,7 @@ type c05wsop struct {
 // messages, pings, unsolicited pongs, close frames and illegal frames, may or
 // may not answer the server's pings, and ends the connection in several ways
 // or just goes silent.
-func c05ServeWS(w *simrt.World, node *simnode.Node, p *c05plan, budget int, arm func()) (hostileSeen bool, ok bool) {
+func c05ServeWS(w *simrt.World, node *simnode.Node, p *c05plan, budget int, arm func(), giant bool, tier string) (hostileSeen bool, ok bool) {
 	c := w.C
 	const layer = "serve-ws"
 	bufSize := []int{64 << 10, 4096, 1024}[c.Intn(3, "ws.bufsize")]
@@ -1451,10 +1559,19 @@ func c05ServeWS(w *simrt.World, node *simnode.Node, p *c05plan, budget int, arm 
 	for i := range ops {
 		ops[i] = c05wsop{kind: c.Intn(12, "ws.op"), split: 1 + c.Intn(4, "ws.split"), garbage: c.Intn(len(c05WSGarbage), "ws.garbage"), code: c.Intn(6, "ws.code")}
 	}
-	w.State(fmt.Sprintf("serve-ws/%s/end%d/pump%v/buf%d", simnet.LawNames[law], p.end, pump, bufSize))
+	giantSize, giantFrags := int64(0), 1
+	if giant {
+		sizes := []int64{64 << 20, 160 << 20, c05MaxBody} // the last one is legal: exactly one maximum body
+		if tier == "thorough" {
+			sizes = append(sizes, 400<<20)
+		}
+		giantSize = sizes[c.Intn(len(sizes), "ws.giant.size")]
+		giantFrags = []int{1, 1, 3, 8}[c.Intn(4, "ws.giant.frags")]
+	}
+	w.State(fmt.Sprintf("serve-ws/%s/end%d/pump%v/buf%d/giant%d", simnet.LawNames[law], p.end, pump, bufSize, giantSize>>20))
 	w.Probe("transport.websocket")
 
-	cli, srv, a, b, err := simws.Pair(w, simnet.LinkConfig{NameA: "hostile-ws", NameB: "hostile-ws@" + node.ID, AddrA: "10.6.6.6:6666", LawAB: law}, bufSize)
+	cli, srv, a, b, err := c05WSPair(w, simnet.LinkConfig{NameA: "hostile-ws", NameB: "hostile-ws@" + node.ID, AddrA: "10.6.6.6:6666", LawAB: law}, bufSize)
 	if err != nil {
 		w.Violationf("C05:harness", "websocket handshake over the simulated link failed: %v", err)
 		return false, false
@@ -1462,7 +1579,7 @@ func c05ServeWS(w *simrt.World, node *simnode.Node, p *c05plan, budget int, arm 
 	sw := &c05wsconn{Conn: adapter.NewWSServerConnForVerif(srv, "10.6.6.6:6666"), c05mon: c05mon{w: w, layer: layer}}
 	node.Adapter.Serve(sw)
 	arm()
-	srvClosed := func() bool { return b.Closed() }
+	srvClosed := func() bool { return b.Conn.Closed() }
 	defer a.Close()
 	if pump {
 		w.Spawn("ws-pump", func() {
@@ -1491,7 +1608,7 @@ loop:
 		}
 		seg := p.bytes[lo:hi]
 		op := ops[i]
-		rawBefore := b.BytesRead()
+		rawBefore := b.Conn.BytesRead()
 		wsHostile := false
 		var werr error
 		sendBin := func(data []byte) {
@@ -1554,7 +1671,7 @@ loop:
 		if w.Free() {
 			return false, false
 		}
-		if (s.hostile && sw.delivered > lo) || (wsHostile && b.BytesRead() > rawBefore) {
+		if (s.hostile && sw.delivered > lo) || (wsHostile && b.Conn.BytesRead() > rawBefore) {
 			hostileSeen = true
 		}
 		if sw.spun {
@@ -1576,6 +1693,72 @@ loop:
 		}
 		if op.kind == 9 {
 			break // nothing sensible can follow an illegal frame
+		}
+	}
+	if giant && !srvClosed() {
+		// One binary message declaring giantSize bytes, in giantFrags frames. Only
+		// the first frame header travels over the link (it wakes the server's
+		// Read); everything after it is synthesised inside the server's own Read
+		// on the link (c05feed), so the peer side allocates nothing: what the
+		// process allocates between two Reads of the server is the server's.
+		per := giantSize / int64(giantFrags)
+		hdr := func(first, last bool, n int64) []byte {
+			b0 := byte(0x00)
+			if first {
+				b0 = 0x02 // binary
+			}
+			if last {
+				b0 |= 0x80 // FIN
+			}
+			h := []byte{b0, 0x80 | 127, 0, 0, 0, 0, 0, 0, 0, 0, 0, 0, 0, 0} // masked, 64-bit length, mask key 0
+			binary.BigEndian.PutUint64(h[2:10], uint64(n))
+			return h
+		}
+		var parts []c05part
+		for k := 0; k < giantFrags; k++ {
+			if k > 0 {
+				parts = append(parts, c05part{lit: hdr(false, k == giantFrags-1, per)})
+			}
+			parts = append(parts, c05part{fill: 0xA5, n: per})
+		}
+		first := hdr(true, giantFrags == 1, per)
+		before := sw.maxDelta
+		b.arm(a.BytesWritten()+int64(len(first)), parts)
+		w.Fault("ws.giant-message")
+		if _, werr := a.Write(first); werr == nil {
+			r := c05Await(w, "main", func() bool { return srvClosed() || b.drained() }, 2*time.Minute, budget)
+			if w.Free() {
+				return false, false
+			}
+			if b.fed > 0 {
+				hostileSeen = true
+			}
+			if sw.spun {
+				fail()
+				return hostileSeen, false
+			}
+			if r == "spin" {
+				w.Violationf("C05:termination:spin:"+layer+":ws-message", "server tasks never blocked while reading one %d MiB WebSocket message (%d of its bytes consumed from the transport)", giantSize>>20, b.fed)
+				fail()
+				return hostileSeen, false
+			}
+			// let the server finish with what it buffered (next Read closes the interval)
+			c05Await(w, "main", srvClosed, 5*time.Second, budget)
+			if w.Free() {
+				return false, false
+			}
+			sw.sample()
+			if sw.maxDelta > c05AllocBound && sw.maxDelta > before {
+				w.Violationf("C05:alloc:"+layer+":ws-message", "an unauthenticated peer sent ONE binary WebSocket message declaring %d MiB in %d frame(s) (each frame header: masked, 64-bit length; payload 0xA5...); the server took %d MiB of it from the transport and between two consecutive Reads on its connection object the process allocated %d MiB (bound %d MiB = 8 x max body); the harness peer allocates nothing while the payload flows",
+					giantSize>>20, giantFrags, b.fed>>20, sw.maxDelta>>20, c05AllocBound>>20)
+				fail()
+				return hostileSeen, false
+			}
+			if b.fed < giantSize {
+				w.Probe("ws.giant.refused-early")
+			} else {
+				w.Probe("ws.giant.buffered-whole")
+			}
 		}
 	}
 	if p.cut {
